@@ -39,6 +39,10 @@ _G_NAMESAKE = _g(Alphabet='{"a", "base", "basex", "base-admin", "nested"}', MaxL
 _G_BQUERY = _g(Alphabet=_FEW, MaxLen=1, BaseIds='{"bquery", "nquery"}', Queries='{"", %s}' % _Q1)
 _G_BQUERY_CFG = _g(Kinds='{"cfg"}', MaxLen=0, BaseIds='{"bquery", "nquery"}')
 
+# every spelling of a provider prefix (aliases included): the path that goes upstream is what follows the prefix
+_G_ALIASES = _g(Alphabet='{"v1", "chat", "completions", "models"}', MaxLen=3, BaseIds='{"none", "base"}', Engines='{"sherpa"}',
+                Prefixes='{"/olla/lmstudio/", "/olla/lm-studio/", "/olla/lm_studio/", "/olla/ollama/", "/olla/vllm/"}')
+
 _T_SEQ3 = _g(MaxLen=3, Prefixes=_PFX)
 _T_SEQ4 = _g(MaxLen=4)
 _T_DEEP5 = _g(Alphabet=_DEEP, MaxLen=5, BaseIds='{"base", "nested"}', Engines='{"olla"}')
@@ -71,8 +75,8 @@ def register(PROPS, HARNESS_PKGS):
         "parts": [{
             "name": "urlpath",
             "mc": [{"module": "UrlPath", "cfg": "UrlPath_mc.cfg", "quick_params": {"MaxLen": 3}, "thorough_params": {"MaxLen": 4}}],
-            "quick": {"gen": [_G_CFG, _G_SEQ2, _G_SEQ3, _G_DOTS3, _G_FORMS, _G_NAMESAKE, _G_BQUERY, _G_BQUERY_CFG]},
-            "thorough": {"gen": [_G_CFG, _T_SEQ3, _T_SEQ4, _T_DEEP5, _T_FORMS, _G_NAMESAKE, _G_BQUERY, _G_BQUERY_CFG]},
+            "quick": {"gen": [_G_CFG, _G_SEQ2, _G_SEQ3, _G_DOTS3, _G_FORMS, _G_NAMESAKE, _G_BQUERY, _G_BQUERY_CFG, _G_ALIASES]},
+            "thorough": {"gen": [_G_CFG, _T_SEQ3, _T_SEQ4, _T_DEEP5, _T_FORMS, _G_NAMESAKE, _G_BQUERY, _G_BQUERY_CFG, _G_ALIASES]},
             "pkg": "internal/app", "test": "TestVerif_UrlPath",
             "harness_dirs": ["app"],
             "harness_files": ["stack_test.go", "urlpath_test.go"],
